@@ -79,7 +79,7 @@ func runC14(c *Ctx, r *Report) {
 			})
 		})
 	}
-	r.Floor("R-C14.1", "calls on the source log inside Join", len(accs), 3)
+	r.Floor("R-C14.1", "calls on the source log inside Join", len(accs), 2)
 	for _, a := range accs {
 		// does the callee take the source's lock?
 		takes := false
